@@ -272,7 +272,7 @@ def gen_pipe_cases(ctx, cap):
     large = [1 << 20] if ctx.quick else [1 << 20, 4 << 20]
     widths = [64, 100, 7]
     cases = []
-    budget = {"big": ctx.size(12, 100000)}
+    budget = {"big": ctx.size(12, 80), "huge": ctx.size(0, 12)}
 
     def mk(stages, n, kind):
         if any(FORMS[s_][2] for s_ in stages[:-1]) and cap // 2 < n <= cap:
@@ -284,6 +284,10 @@ def gen_pipe_cases(ctx, cap):
             # an early-exit reader: with a payload between one pipe and the stages' own buffers the statuses
             # are a matter of timing in bash too; use a payload that decides them
             n = 1 << 20
+        if n >= (4 << 20):
+            if budget["huge"] <= 0:
+                n = 1 << 20
+            budget["huge"] -= 1
         if n >= (1 << 20) and not has_limit(stages):
             if budget["big"] <= 0:
                 n = 4 * cap + 11
@@ -313,11 +317,11 @@ def gen_pipe_cases(ctx, cap):
                 if k == 2 or idx % 2 == 1:
                     mk(stages, (above + large)[(idx // 2) % 4], "exh%d" % k)
             else:
-                for n in sizes:
+                for n in (small[idx % 4], below[0], above[idx % 3], large[idx % 2]):
                     mk(stages, n, "exh%d" % k)
     # (b) seeded random, 2-4 stages, any form
     names = list(FORMS)
-    for _ in range(ctx.size(60, 1500)):
+    for _ in range(ctx.size(60, 500)):
         k = rng.choice([2, 3, 3, 4, 4])
         stages = []
         for pos in range(k):
